@@ -77,13 +77,21 @@ pub const NAMES: [&str; 16] = [
 ];
 
 impl Uni {
+    /// the fixed C06/C16 universe
     pub fn build() -> Uni {
+        let pk: Vec<(String, Option<String>, String)> =
+            PKG_WAT.iter().map(|(n, v, w)| (n.to_string(), v.map(|x| x.to_string()), w.to_string())).collect();
+        Uni::build_with(&pk, NAMES.iter().map(|s| s.to_string()).collect(), true).expect("universe")
+    }
+
+    /// a universe from package WAT texts (C10 generates one per case); `names` = string table
+    pub fn build_with(pk: &[(String, Option<String>, String)], names: Vec<String>, fixed: bool) -> Result<Uni, String> {
         let mut base = CompositionGraph::new();
         let mut pkgs = Vec::new();
-        for (name, ver, wat_text) in PKG_WAT.iter() {
-            let bytes = wat::parse_str(wat_text).expect("wat");
-            let v = ver.map(|v| semver::Version::parse(v).unwrap());
-            let p = Package::from_bytes(name, v.as_ref(), bytes, base.types_mut()).expect("package");
+        for (name, ver, wat_text) in pk.iter() {
+            let bytes = wat::parse_str(wat_text).map_err(|e| format!("wat: {e}"))?;
+            let v = ver.as_ref().map(|v| semver::Version::parse(v).unwrap());
+            let p = Package::from_bytes(name, v.as_ref(), bytes, base.types_mut()).map_err(|e| format!("package: {e:#}"))?;
             pkgs.push(p);
         }
         // types defined directly in the graph (arena order = dependency order)
@@ -158,18 +166,21 @@ impl Uni {
         let pkg_by_ty = pkgs.iter().enumerate().map(|(i, p)| (format!("{:?}", p.ty()), i)).collect();
 
         // kinds used by explicit imports: func(), instance{x}, func(u32), the type t0, the instance of pkg 0
-        let k_func = kind_ix[&format!("{:?}", tys[pkgs[0].ty()].imports["f"])];
-        let k_inst = kind_ix[&format!("{:?}", tys[pkgs[1].ty()].imports["i"])];
-        let k_funcu = kind_ix[&format!("{:?}", tys[pkgs[1].ty()].imports["n"])];
-        let k_type0 = ty_kind[0];
-        let k_pkg0 = kind_ix[&format!("{:?}", ItemKind::Instance(pkgs[0].instance_type()))];
-        let import_kinds = vec![k_func, k_inst, k_funcu, k_type0, k_pkg0];
+        let mut import_kinds = Vec::new();
         let mut kind_alias = HashMap::new();
-        kind_alias.insert("func", k_func);
-        kind_alias.insert("inst", k_inst);
-        kind_alias.insert("funcu32", k_funcu);
-        kind_alias.insert("type0", k_type0);
-        kind_alias.insert("pkg0", k_pkg0);
+        if fixed {
+            let k_func = kind_ix[&format!("{:?}", tys[pkgs[0].ty()].imports["f"])];
+            let k_inst = kind_ix[&format!("{:?}", tys[pkgs[1].ty()].imports["i"])];
+            let k_funcu = kind_ix[&format!("{:?}", tys[pkgs[1].ty()].imports["n"])];
+            let k_type0 = ty_kind[0];
+            let k_pkg0 = kind_ix[&format!("{:?}", ItemKind::Instance(pkgs[0].instance_type()))];
+            import_kinds = vec![k_func, k_inst, k_funcu, k_type0, k_pkg0];
+            kind_alias.insert("func", k_func);
+            kind_alias.insert("inst", k_inst);
+            kind_alias.insert("funcu32", k_funcu);
+            kind_alias.insert("type0", k_type0);
+            kind_alias.insert("pkg0", k_pkg0);
+        }
 
         // node ids 0..N from a scratch graph
         let mut scratch = CompositionGraph::new();
@@ -185,9 +196,9 @@ impl Uni {
                 m.borrow_mut().insert(k.to_string(), *v);
             }
         });
-        Uni {
+        Ok(Uni {
             base,
-            names: NAMES.iter().map(|s| s.to_string()).collect(),
+            names,
             kinds,
             kind_ix,
             types,
@@ -200,7 +211,7 @@ impl Uni {
             import_kinds,
             kind_alias,
             forged: Default::default(),
-        }
+        })
     }
 
     pub fn name_ix(&self, s: &str) -> i64 {
@@ -613,13 +624,15 @@ pub struct State {
     pub dump: Dump,
     /// every package id (slot, gen) ever returned
     pub seen_pkgs: BTreeSet<(usize, usize)>,
+    /// run the validator oracle on successful encodings in `observe`
+    pub validate: bool,
 }
 
 impl State {
     pub fn new(uni: &Uni) -> State {
         let g = uni.base.clone();
         let dump = Dump::parse(uni, &g.verif_dump());
-        State { g, dump, seen_pkgs: BTreeSet::new() }
+        State { g, dump, seen_pkgs: BTreeSet::new(), validate: false }
     }
 
     pub fn refresh(&mut self, uni: &Uni) {
@@ -897,10 +910,22 @@ impl State {
         // does the graph still encode (any Ok / Err is fine; a panic is not)
         let enc = if with_encode {
             match guarded(AssertUnwindSafe(|| {
-                g.encode(EncodeOptions { define_components: true, validate: false, processor: None }).is_ok()
+                g.encode(EncodeOptions { define_components: true, validate: false, processor: None })
             })) {
-                Ok(true) => 1,
-                Ok(false) => 2,
+                Ok(Ok(bytes)) => {
+                    if self.validate {
+                        // independent oracle: the full validator on the encoded bytes
+                        let mut v = wasmparser::Validator::new_with_features(wasmparser::WasmFeatures::all());
+                        if v.validate_all(&bytes).is_ok() {
+                            1
+                        } else {
+                            4
+                        }
+                    } else {
+                        1
+                    }
+                }
+                Ok(Err(_)) => 2,
                 Err(_) => 3,
             }
         } else {
